@@ -1,5 +1,6 @@
 import Ufw.Props.C04
 import Ufw.Tie.RegTable
+import Ufw.Tie.RegFns.Geometry
 #print axioms Ufw.Props.C04.orderCheck_go_none
 #print axioms Ufw.Props.C04.orderCheck_go_some
 #print axioms Ufw.Props.C04.init_outcome
@@ -14,3 +15,14 @@ import Ufw.Tie.RegTable
 #print axioms Ufw.Props.C04.init_then_history
 #print axioms Ufw.Tie.RegTable.const_rds_size
 #print axioms Ufw.Tie.RegTable.const_enums
+#print axioms Ufw.Tie.RegFns.gen_rds_size
+#print axioms Ufw.Tie.RegFns.rds_size_invalid
+#print axioms Ufw.Tie.RegFns.size_lt
+#print axioms Ufw.Tie.RegFns.gen_register_entry_size
+#print axioms Ufw.Tie.RegFns.gen_reg_min
+#print axioms Ufw.Tie.RegFns.gen_ra_addr_is_part_of
+#print axioms Ufw.Tie.RegFns.gen_ra_reg_is_part_of
+#print axioms Ufw.Tie.RegFns.gen_ra_reg_fits_into
+#print axioms Ufw.Tie.RegFns.gen_reg_range_touches
+#print axioms Ufw.Tie.RegFns.overlap_iff_touches_zero
+#print axioms Ufw.Tie.RegFns.gen_ra_range_touches
